@@ -819,7 +819,7 @@ class HeapExec(DynExec):
             r = self._allany_concrete(is_all, gen.data[0], st)
             if r is not None:
                 return r
-            return [(st, SBool(fresh('all' if is_all else 'any', z3.BoolSort())))]
+            return [(st, SBool(fresh('UNEVALUATED_all' if is_all else 'UNEVALUATED_any', z3.BoolSort())))]
         if isinstance(gen, tuple):
             parts = [self.truth(x, st) for x in gen]
             r = self.conj(parts) if is_all else self.disj(parts)
@@ -1306,7 +1306,7 @@ class HeapExec(DynExec):
 
     # ------------------------------------------------------------------ spec functions for contracts
     def spec_fn(self, name, args, kw, st):
-        if name == 'STACKID':
+        if name in ('STACKID', 'REACHED_LOOP'):
             return super().spec_fn(name, args, kw, st)
         if name == 'FRESH':
             # the object was allocated by a constructor call executed in this activation (not a parameter's element,
